@@ -31,15 +31,16 @@ RULE = ("ops: roundtrip (ADMGs 0-8 nodes with isolated / bidirected-only nodes, 
         "with parents, with 0/1/many children, duplicate and nested child sets, isolated latents/observed), evans "
         "(ADMG + extra latent set), from_lv (arbitrary tagged DAGs incl. untagged nodes), design (taheri _get_result, "
         "oracle only); malformed stream: cyclic graphs, untagged nodes; name-collision stream (a node already called "
-        "u_i / v_prime) is oracle-only. A simplify/evans case is non-trivial when at least one rule changed the graph "
+        "u_i / v_prime); small-scope slice: every DAG on <=3 (quick) / <=5 (thorough) nodes x every latent subset; thorough "
+        "adds DAGs up to 11 nodes with sampled separation triples. A simplify/evans case is non-trivial when at least one rule changed the graph "
         "and at least two observed nodes remain; a roundtrip case when it has an edge-less node or >=2 bidirected edges.")
 ASSUMPTIONS = [
-    "simplify_projection / simplify_idem: see Props/C16.lean for which are full theorems and which are `_partial` (OPEN blocks list the gap)",
-    "clause 'separation relations among observed nodes are unchanged': theorem only through the projection (equal projections => equal answers of any test computed from the projection); that d-separation INSIDE the LV-DAG equals m-separation of its projection is classical, not mechanised; checked by the path-enumeration oracle on every generated case",
-    "clause 'identifiability verdicts unchanged': corollary by congruence (ID is a function of the projected mixed graph up to __eq__); the harness additionally runs identify_outcomes on the independent projection and on y0's output",
-    "naming: the model takes `fresh i` (u_i) and `prime v` (v_prime) as parameters; the theorems assume these names are not already nodes of the graph. Inputs that violate this are checked by the oracle only",
-    "networkx topological_sort on a graph mutated during iteration is modelled as the order of the input graph (argued in Model/Latent.lean); correspondence compares results as sets",
-    "in-place mutation: simplify_latent_dag mutates its argument; the model is pure and returns the final graph",
+    "clause 'separation relations among observed nodes are unchanged': the theorem (verdict_invariant) covers every test computed FROM THE PROJECTED MIXED GRAPH (equal projections => equal answers); that d-separation INSIDE the LV-DAG among observed nodes equals m-separation of its projection is classical (Richardson-Spirtes / Evans), not mechanised: decided on every generated case by the path-enumeration oracle (input DAG vs output DAG vs canonical DAG of the projection)",
+    "clause 'identifiability verdicts unchanged': theorem by congruence only (ID as any function of the mixed graph that respects NxMixedGraph.__eq__); that y0's identify() respects __eq__ is not proved here; the harness runs identify_outcomes on the independent projection and on y0's output for sampled queries",
+    "theorem hypotheses: D.WF (distinct nodes/edges, edge endpoints are nodes, every node tagged: what building an nx.DiGraph gives), D.Acyclic, and for the names only `Function.Injective fresh` (u_i distinct) and `forall n, n < prime n` (a primed name is a longer string); bidirected self-loops are excluded from the round trip (not an ADMG)",
+    "networkx topological_sort on a graph mutated during iteration is modelled as the order of the input graph (argued in Model/Latent.lean); correspondence compares results as sets, names invented for new latents are compared by their child sets",
+    "in-place mutation: simplify_latent_dag mutates its argument and leaves it half-rewritten when it raises; the model is pure and returns the final graph (runtime clause, not claimed)",
+    "non-Variable nodes (_assert_variable_nodes TypeError) are outside the model (names are naturals)",
 ]
 EXHAUSTIVE = {"quick": False, "thorough": False}
 LEANCHECK_MODULES = ["Y0.Model.Latent", "Y0.Props.C16"]
@@ -223,9 +224,25 @@ def rand_admg(rng, nmax=8, collide=0.0):
             "bi": [[ren[u], ren[v]] for u, v in g["bi"]]}
 
 
+def _corpus_files():
+    """witnesses kept under corpus/C16/*.json (replay files of past violations: key "case")"""
+    out = []
+    d = C.VERIF / "corpus" / PROP
+    if d.is_dir():
+        for f in sorted(d.glob("*.json")):
+            try:
+                c = json.loads(f.read_text())
+            except ValueError:
+                continue
+            c = c.get("case", c)
+            if isinstance(c, dict) and "op" in c:
+                out.append(c)
+    return out
+
+
 def cases(rng: random.Random, tier: str):
-    out = [json.loads(json.dumps(c)) for c in CORPUS]
-    k = 1 if tier == "quick" else 8
+    out = [json.loads(json.dumps(c)) for c in CORPUS] + _corpus_files()
+    k = 10 if tier == "quick" else 80
     for _ in range(260 * k):
         out.append({"op": "roundtrip", "g": rand_admg(rng, collide=0.03)})
     for _ in range(420 * k):
@@ -299,6 +316,22 @@ def cases(rng: random.Random, tier: str):
             else:
                 nodes = G.all_nodes(g)
                 out.append({"op": "evans", "g": g, "extra": [v for v in nodes if rng.random() < 0.3]})
+    # small-scope exhaustive slice: every DAG on n nodes (edges i -> j for i < j) x every latent subset,
+    # names assigned by one random permutation per graph (so name order vs topological order varies)
+    nmax_ex = 3 if tier == "quick" else 5
+    for n in range(1, nmax_ex + 1):
+        pairs = list(itt.combinations(range(n), 2))
+        for mask in range(1 << len(pairs)):
+            es = [p for b, p in enumerate(pairs) if mask >> b & 1]
+            perm = list(range(n))
+            rng.shuffle(perm)
+            for lm in range(1 << n):
+                out.append({"op": "simplify", "d": {
+                    "nodes": [nm(perm[i]) for i in range(n)], "edges": [[nm(perm[u]), nm(perm[v])] for u, v in es],
+                    "latent": [nm(perm[i]) for i in range(n) if lm >> i & 1], "untagged": []}})
+    if tier != "quick":
+        for _ in range(400):
+            out.append({"op": "simplify", "d": rand_dag(rng, nmax=11)})
     for c in out:
         c.setdefault("sub", rng.randrange(1 << 30))
     return out
@@ -386,6 +419,21 @@ def canon_lv(nodes, edges, lat, unt):
     return ["lv", C.as_set(list(nodes)), C.as_set([list(e) for e in edges]), C.as_set(list(lat)), C.as_set(list(unt))]
 
 
+def neutral_simplify_out(lv, widows, uni, red, input_names):
+    """canonical simplify output that does not depend on the NAMES the code invents for new latents
+    (`v_prime…`): a generated latent is named after its child set, generated names in the reported sets
+    become '<new>' (with multiplicity).  Names of input nodes are compared exactly."""
+    _, nodes, edges, lat, unt = lv
+    ch = {}
+    for u, v in edges:
+        ch.setdefault(u, []).append(v)
+    ren = {n: (n if n in input_names else "<new:" + ",".join(sorted(ch.get(n, []))) + ">") for n in nodes}
+    f = lambda x: ren.get(x, x)  # noqa: E731
+    g = lambda xs: sorted(x if x in input_names else "<new>" for x in xs)  # noqa: E731
+    return ["ok", ["lv", sorted(f(n) for n in nodes), sorted([f(u), f(v)] for u, v in edges), sorted(f(n) for n in lat),
+                   sorted(f(n) for n in unt)], g(widows), g(uni), g(red)]
+
+
 def canon_mixed_nx(graph):
     return C.canon_graph(["graph", [n.name for n in graph.nodes()], [[u.name, v.name] for u, v in graph.directed.edges()],
                           [[u.name, v.name] for u, v in graph.undirected.edges()]])
@@ -470,8 +518,9 @@ def _run_simplify(case):
     valid = not d.get("untagged") and O.is_acyclic(in_nodes, in_edges)
     try:
         res = simplify_latent_dag(dag)
-        out = ["ok", canon_lv_nx(res.graph), C.as_set([v.name for v in res.widows]),
-               C.as_set([v.name for v in res.unidirectional_latents]), C.as_set([v.name for v in res.redundant])]
+        names_out = canon_lv_nx(res.graph)
+        out = neutral_simplify_out(names_out, [v.name for v in res.widows], [v.name for v in res.unidirectional_latents],
+                                   [v.name for v in res.redundant], set(in_nodes))
     except _errs() as e:
         out = ["err"]
         if valid:
@@ -482,7 +531,7 @@ def _run_simplify(case):
     o_nodes, o_edges, o_lat = _lv_parts(res.graph)
     obs_in = set(in_nodes) - set(in_lat)
     obs_out = set(o_nodes) - set(o_lat)
-    changed = out[1] != canon_lv(in_nodes, in_edges, in_lat, [])
+    changed = names_out != canon_lv(in_nodes, in_edges, in_lat, [])
     info = {"changed": changed, "n_obs": len(obs_in)}
     if obs_in != obs_out:
         return out, f"observed nodes not kept: before {sorted(obs_in)} after {sorted(obs_out)}", info
@@ -493,8 +542,8 @@ def _run_simplify(case):
         c2 = canon_lv_nx(res2.graph)
     except _errs() as e:
         return out, f"second simplification raised {type(e).__name__}", info
-    if c2 != out[1]:
-        return out, f"not idempotent: first {out[1]} second {c2}", info
+    if c2 != names_out:
+        return out, f"not idempotent: first {names_out} second {c2}", info
     try:
         back = NxMixedGraph.from_latent_variable_dag(res.graph)
     except _errs() as e:
@@ -687,7 +736,9 @@ def canon_model(case, rep):
     if op == "roundtrip":
         return ["ok", _dec_lv(body[0], uni), _dec_graph(body[1], uni)]
     if op == "simplify":
-        return ["ok", _dec_lv(body[0], uni)] + [C.as_set([uni[int(x)] for x in s]) for s in body[1:4]]
+        d = case["d"]
+        names = set(d["nodes"]) | {x for e in d["edges"] for x in e}
+        return neutral_simplify_out(_dec_lv(body[0], uni), *[[uni[int(x)] for x in s] for s in body[1:4]], names)
     return ["ok", _dec_graph(body, uni)]
 
 
@@ -724,7 +775,26 @@ def finding_key(case, res):
 
 
 MANIFEST = {
-    "text": "filled in below",
-    "note": "",
-    "technique": "",
+    "text": ("Proof: 19 Lean theorems about the executable model of graph.py (_latent_dag / to_latent_variable_dag / "
+             "from_latent_variable_dag) and simplify_latent.py (four rules, simplify_latent_dag, evans_simplify), for ALL "
+             "well-formed inputs, no size bound. Round trip: from(to(G)) == G for every mixed graph incl. edge-less nodes "
+             "and nodes already called u_i (roundtrip, toLV_is_projection). Simplification of any well-formed acyclic LV-DAG "
+             "with any latent subset: never raises (simplify_total, which includes a proof that the modelled Kahn "
+             "topological sort succeeds on every acyclic graph), keeps exactly the observed nodes (simplify_keeps_observed), "
+             "is idempotent literally (simplify_idem), yields a flat irredundant DAG (simplify_simplified), and the mixed graph "
+             "read off it is exactly the relationally defined latent projection of the ORIGINAL DAG (simplify_projection; one "
+             "lemma per rule rule1..rule4_*_sameProj; fromLV_is_projection). evans_simplify returns the projection "
+             "(evans_projection, evans_id). 'Consequently' clause: verdict_invariant gives equal answers for every function "
+             "of the projected graph that respects __eq__; the stronger classical fact that d-separation inside the LV-DAG "
+             "equals m-separation of the projection has NO theorem and rests on correspondence + the path-enumeration oracle."),
+    "note": ("Trusted: Lean kernel; axioms propext/Classical.choice/Quot.sound; Spec/LatentSpec.lean (definition of latent "
+             "projection, WF, Acyclic); the hand-written model tied to the code by differential sampling on every run "
+             "(networkx DiGraph/topological_sort behaviour under mutation is modelled); Python string order of names is "
+             "passed to the model as a rank table. Five defects were found by this check and fixed in y0 (edge-less nodes "
+             "dropped by both conversions, single-pass widow removal, u_i and _prime name collisions); the model follows "
+             "the fixed code and their witnesses stay in the corpus."),
+    "technique": ("Lean 4 theorems (path calculus on an inductive latent-only-path relation, fold invariants, finite-set "
+                  "cardinality arguments for name freshness, Kahn totality) + differential correspondence with the real y0 "
+                  "functions + independent oracle (latent projection and d-connection by path enumeration, simplifier run "
+                  "twice, identify_outcomes on both projections)"),
 }
